@@ -24,7 +24,7 @@ def main():
         if not os.path.isdir(d) or (pref and not any(name.startswith(p) for p in pref)):
             continue
         meta = json.load(open(os.path.join(d, "meta.json")))
-        pid = meta["property"]
+        pid = meta.get("caught_by", meta["property"])     # a change whose manifestation belongs to another property's check
         t0 = time.time()
         try:
             res = seedtest.run(os.path.join(d, "patch.diff"), [pid])[pid]
